@@ -1,13 +1,16 @@
 import Infretis.Lemmas.RepexC04C05
 import Infretis.Lemmas.RepexC04Crash
+import Infretis.Lemmas.RepexC04Resume
 /-!
 # C04 — fractional weights are conserved and accounted for exactly once
 
-Property theorems only (helper lemmas: `Infretis/Lemmas/RepexC04{Rec,Rows,Treat,Check,Frame,Hist,Once,Restart,C05,Crash}.lean`;
+Property theorems only (helper lemmas: `Infretis/Lemmas/RepexC04{Rec,Rows,Treat,Check,Frame,Hist,Once,Restart,C05,Crash,Data,Sup,Disk,Start,Chain,Mid,DiskG,Resume}.lean`;
 the history theorems use C03's scheduler invariant `Inv` from `RepexC03{Core,Treat,Sys,Init,Load}.lean`).
 Model: `Infretis/Model/Repex.lean` (`recordFrac` = the "record weights" loop of `treat_output`,
 `writeRows` = `write_to_pathens`, `treatOutput`, the scheduler events `sysStep`/`run`, the restart
-image `persist`/`restore`); the swap-probability matrix is the specification
+image `persist`/`restore`) and `Infretis/Model/DataFile.lean` (§9–§12: the written row `fmtCols`, the data file
+as lines, `clean_data_file` = `cleanLines`, `write_toml`'s fraction section `persistD`, the disk `DSys`/`dStep`,
+stops `stopDisk`, the restart `restartClean` + `restore`); the swap-probability matrix is the specification
 `Perm.probMatrix` (C02 ties `inf_retis` to it).
 
 Vocabulary
@@ -22,7 +25,7 @@ Vocabulary
 Slots: ensemble `ens_num` lives in slot/column `ens_num + 1`; the last slot/column is the ghost.
 -/
 namespace Infretis.C04
-open Infretis.Repex Infretis.Repex.Frac Infretis.Perm
+open Infretis.Repex Infretis.Repex.Frac Infretis.Perm Infretis.Repex.Data
 
 /-! ## 1. One recording adds one unit per idle column -/
 
@@ -489,6 +492,13 @@ theorem conservation_one_worker_reachable (y0 y : Sys) (evs : List Ev) (h0 : Fra
     rowsTotal y.s.rows c + colTotal y.s.frac c = (y.s.cstep : Rat) :=
   conservation_one_worker y0 y evs h0 hw hc0 hr (matchableAlong_of_histOk evs y0 h5.inv5 hh) c hc
 
+/-- with one worker every completed step is an idle recording for every ensemble column, no matchability
+    hypothesis -/
+theorem one_worker_all_idle_reachable (y0 y : Sys) (evs : List Ev) (h0 : FracInit y0) (h5 : Init5 y0)
+    (hh : HistOk y0 evs) (hw : y0.s.workers = 1) (hr : run y0 evs = .ok y) (c : Nat)
+    (hc : c < y0.s.n - 1) : y.s.cstep = y0.s.cstep + idleSteps y0 evs c :=
+  one_worker_all_idle y0 y evs h0 hw hr (matchableAlong_of_histOk evs y0 h5.inv5 hh) c hc
+
 /-- **Each completed step adds exactly one unit per idle column.**  `y` reachable as above, one more
     completed step (any job `k`, any status, outcome in the family) leading to `y'`.  With `sR` the
     recording state (the job's slots released, new paths in the table with zero vectors — so `sR`
@@ -622,7 +632,9 @@ restart's clean-up, for every stop of every completed step of every history.  No
 * the table is assumed to hold exactly the live paths before and after the step (hypotheses
   `htab`, `htab'`; `live ⊆ table` is proved, the converse needs "the ghost slot holds no path");
 * path-store / deletion effects carry no weights and are C08's `Fs` model.
-The tie evaluates the full statement (continued to N) on the real files for every stop. -/
+The tie evaluates the full statement (continued to N) on the real files for every stop.
+(The first and the third gap are closed in §12: `crash_restart_conservation` is the full statement on the two
+files for every reachable state; the second is closed for quiescent images in §13.) -/
 
 theorem crash_restart_conservation_partial (y0 y y' : Sys) (evs : List Ev) (h0 : RowInit y0)
     (hr : run y0 evs = .ok y) (hm : MatchableAlong y0 evs)
@@ -686,5 +698,501 @@ example : exMidTreated.rows.map (·.1) = [0, 1] ∧
       = [1, 1, 0] ∧
     (crashDisk exMid.s exMidTreated 2 true).img.cstep = 1 := by
   decide +kernel
+
+/-! ## 9. What `write_to_pathens` writes for one path
+
+`fmtCols size frac weights` (Model/DataFile.lean) = the `frac` and `weight` column lists of the row, `Cell.dash` =
+`----`.  `shown w c`: a `[0-]` path (one weight) shows column 0 only, every other path the columns `1 … n−2`;
+`padW size w` = the weight vector as `add_traj` pads it.  `readCell`: `----` counts as 0. -/
+
+/-- **Masking, all inputs.**  Whatever the table entry looks like: the two column lists have the same length and
+    a weight column is `----` exactly where the fraction column is. -/
+theorem row_mask_all_inputs (size : Nat) (f w : List Rat) (fc wc : List Cell)
+    (h : fmtCols size f w = .ok (fc, wc)) :
+    fc.length = wc.length ∧ ∀ c, fc.getD c .dash = .dash ↔ wc.getD c .dash = .dash :=
+  fmtCols_mask_eq size f w fc wc h
+
+/-- **parse ∘ format = id on the column tokens, all inputs**: the `2·k` tokens after the three leading ones, split
+    in the middle as the reader does, are exactly the fraction list and the weight list that were written. -/
+theorem row_parse_format (size : Nat) (f w : List Rat) (fc wc : List Cell)
+    (h : fmtCols size f w = .ok (fc, wc)) : splitCols (fc ++ wc) = (fc, wc) :=
+  splitCols_append fc wc (fmtCols_mask_eq size f w fc wc h).1
+
+example : fmtCols 4 [0, 2/3, 4/3, 0] [1, 2, 0] = .ok ([.dash, .num (2/3), .num (4/3)], [.dash, .num 1, .num 2]) ∧
+    splitCols [Cell.dash, .num (2/3), .num (4/3), .dash, .num 1, .num 2]
+      = ([.dash, .num (2/3), .num (4/3)], [.dash, .num 1, .num 2]) := by
+  decide +kernel
+
+/-- **The columns of a row of the sampler's shape** (`n` fractions; one weight or `n − 1` weights, `n ≥ 2`):
+    `n − 1` fraction and `n − 1` weight columns; column `c` shows the fraction `f[c]` and the padded weight
+    `padW[c]` — the path's weight in ensemble column `c` at the time it is replaced — if the row shows that column
+    and the fraction is non-zero, and `----` in both lists otherwise. -/
+theorem row_columns (size : Nat) (f w : List Rat) (fc wc : List Cell) (sh : Shape size f w)
+    (h : fmtCols size f w = .ok (fc, wc)) :
+    fc.length = size - 1 ∧ wc.length = size - 1 ∧
+    ∀ c, c < size - 1 →
+      fc.getD c .dash = (if shown w c = true ∧ f.getD c 0 ≠ 0 then .num (f.getD c 0) else .dash) ∧
+      wc.getD c .dash = (if shown w c = true ∧ f.getD c 0 ≠ 0 then .num ((padW size w).getD c 0) else .dash) :=
+  fmtCols_read size f w fc wc sh h
+
+/-- **Reading the row gives the fractions back** in every ensemble column, when the entry carries nothing in a
+    column its row does not show (`RowSup`; `support_reachable` below: every reachable entry does). -/
+theorem row_reads_back (size : Nat) (f w : List Rat) (fc wc : List Cell) (rs : RowSup size f w)
+    (h : fmtCols size f w = .ok (fc, wc)) (c : Nat) (hc : c < size - 1) :
+    (fc.map readCell).getD c 0 = f.getD c 0 :=
+  fmtCols_readback size f w fc wc rs h c hc
+
+theorem ex_rowSup_plus : RowSup 4 [0, 2/3, 4/3, 0] [1, 2, 0] :=
+  ⟨⟨by decide, by decide, by decide⟩, by decide, by decide +kernel⟩
+
+theorem ex_rowSup_minus : RowSup 4 [3, 0, 0, 0] [1] :=
+  ⟨⟨by decide, by decide, by decide⟩, by decide, by decide +kernel⟩
+
+example : RowSup 4 [0, 2/3, 4/3, 0] [1, 2, 0] ∧
+    fmtCols 4 [0, 2/3, 4/3, 0] [1, 2, 0] = .ok ([.dash, .num (2/3), .num (4/3)], [.dash, .num 1, .num 2]) ∧
+    RowSup 4 [3, 0, 0, 0] [1] ∧
+    fmtCols 4 [3, 0, 0, 0] [1] = .ok ([.num 3, .dash, .dash], [.num 1, .dash, .dash]) ∧
+    -- a plus path that never collected weight in `[2+]`: both columns masked
+    fmtCols 4 [0, 1/2, 0, 0] [1, 1, 0] = .ok ([.dash, .num (1/2), .dash], [.dash, .num 1, .dash]) ∧
+    -- not a shape the sampler produces (an empty fraction vector): IndexError
+    fmtCols 4 [] [1] = .error .index :=
+  ⟨ex_rowSup_plus, by decide +kernel, ex_rowSup_minus, by decide +kernel, by decide +kernel, by decide +kernel⟩
+
+/-! ## 10. A path never carries weight in a column its row does not show -/
+
+/-- **Support, every reachable state** (fresh start, outcomes in C02's weight family): for every path with a
+    weight record, the fraction vector vanishes in every ensemble column its data row would mask by position
+    (`shown w c = false`) and in the ghost column; every row written so far has the sampler's shape and the same
+    support.  So the `----` written for position (not for a zero fraction) never hides weight. -/
+theorem support_reachable (y0 y : Sys) (evs : List Ev) (h0 : FracInit y0) (h5 : Init5 y0)
+    (hh : HistOk y0 evs) (hr : run y0 evs = .ok y) :
+    (∀ pn w, y.s.wts.lookup pn = some w →
+      (∀ c, c < y.s.n - 1 → shown w c = false → fracAt y.s.frac pn c = 0) ∧ fracAt y.s.frac pn (y.s.n - 1) = 0) ∧
+    (∀ r ∈ y.s.rows, RowSup y.s.n r.2.1 r.2.2) :=
+  ⟨(reachable_sup h0 h5 hh hr).tab, (reachable_sup h0 h5 hh hr).rows⟩
+
+example : FracInit exSys ∧ Init5 exSys ∧ HistOk exSys exEvs ∧ run exSys exEvs = .ok exEnd ∧
+    exEnd.s.wts = [(2, [1, 1, 0]), (3, [1]), (4, [1, 1, 0])] ∧
+    exEnd.s.frac = [(2, [0, 1/2, 1/2, 0]), (3, [1, 0, 0, 0]), (4, [0, 3/2, 1/2, 0])] :=
+  ⟨ex_fracInit, ex_init5, ex_histOk, by decide +kernel, by decide +kernel, by decide +kernel⟩
+
+/-! ## 11. The law on the two files, along every history
+
+`DSys` = sampler + jobs in flight + `infretis_data.txt` (lines) + `restart.toml` (image) + the per-column count
+`cnt` of completed steps at whose recording the column was idle (`dStep` adds `idleInc` of the locks `treat_output`
+leaves: 1 per idle column).  `dStep` performs `treat_output`'s two weight-relevant effects in the code's order
+(`treatDisk`: rows appended, then the restart image replaced by `persistD` = `write_toml`); `prep_md_items` and
+`initiate` write nothing.  `lineTotal` = column total of the fractions the row lines SHOW (`----` as 0),
+`liveTotal im` = column total of `[current.frac]` over the paths in `[current.active]`,
+`diskTotal = lineTotal + liveTotal`.  `DiskStart y0` = `RowInit` + C05's `Init5` + C06's `Tidy`. -/
+
+/-- **`DiskStart` is what a fresh start produces** (`load_paths` on `n − 1` initial paths with distinct numbers
+    below `traj_num`, zero fractions, weights in C02's family). -/
+theorem fresh_start_is_diskStart (n workers tsteps cstep trajNum seed : Nat) (occ : List (List Int))
+    (ensEng : List (List Nat)) (restarted : Bool) (paths : List (Nat × List Rat × List Rat)) (s : St)
+    (hn : 2 ≤ n) (hlen : paths.length = n - 1) (hnd : (paths.map (·.1)).Nodup)
+    (hlt : ∀ p ∈ paths, p.1 < trajNum) (hz : ∀ p ∈ paths, p.2.2 = List.replicate n 0)
+    (hfam : ∀ (i : Nat) (hi : i < paths.length), VecOk n ((i : Int) - 1) (paths[i]).2.1)
+    (h : loadPaths (blank n workers tsteps cstep trajNum seed occ ensEng restarted []) paths = .ok s) :
+    DiskStart ⟨s, []⟩ :=
+  diskStart_of_loadPaths n workers tsteps cstep trajNum seed occ ensEng restarted paths s hn hlen hnd hlt hz hfam h
+
+/-- **Conservation on what is written.**  Every history `evs` (any interleaving, any outcomes in the weight
+    family, any number of workers) from a fresh start on a fresh disk, leading to `z`:
+    1. the sampler part of `z` is `run y0 evs`;
+    2. the explicit count is the number of idle recordings: `cnt[c] = idleSteps y0 evs c`;
+    3. for every ensemble column, the fractions the data file shows + the fraction table = that count;
+    4. once a restart file exists: its step / path counters are the sampler's, and data file + live weights of
+       the restart file = that count — the law of the property, on the two files;
+    5. the rows of the data file are those of the accepted completions, each path once, none of them active in
+       the restart file. -/
+theorem files_conservation_reachable (y0 : Sys) (evs : List Ev) (z : DSys) (h0 : DiskStart y0)
+    (hh : HistOk y0 evs) (hr : dRun (freshSys y0) evs = .ok z) :
+    run y0 evs = .ok z.y ∧
+    (∀ c, z.cnt.getD c 0 = idleSteps y0 evs c) ∧
+    (∀ c, c < z.y.s.n - 1 → lineTotal z.d.lines c + colTotal z.y.s.frac c = (idleSteps y0 evs c : Rat)) ∧
+    (∀ im, z.d.img = some im → im.cstep = z.y.s.cstep ∧ im.trajNum = z.y.s.trajNum ∧
+        ∀ c, c < z.y.s.n - 1 → diskTotal z.d.lines im c = (idleSteps y0 evs c : Rat)) ∧
+    (dataRows z.d.lines).map (·.1) = writtenAlong y0 evs ∧ ((dataRows z.d.lines).map (·.1)).Nodup ∧
+    (∀ im, z.d.img = some im → ∀ pn ∈ (dataRows z.d.lines).map (·.1), pn ∉ activeKeys im) := by
+  obtain ⟨a1, a2, a3, a4⟩ := dRun_spec evs (z := freshSys y0) h0.reach4 (freshSys_inv h0.ri) hh hr
+  have a1' : run y0 evs = .ok z.y := a1
+  obtain ⟨t1, t2⟩ := disk_totals a2 a3
+  have hcons := conservation_reachable y0 z.y evs h0.ri.fi h0.i5 hh a1'
+  obtain ⟨w1, _, _, w4, _⟩ := row_written_once y0 z.y evs h0.ri a1'
+  refine ⟨a1', ?_, ?_, ?_, ?_, ?_, ?_⟩
+  · intro c
+    have := a4 c
+    simp only [freshSys, getD_replicate_zero_nat, Nat.zero_add] at this
+    exact this
+  · intro c hc
+    rw [t1 c hc]; exact hcons c
+  · intro im him
+    have io := a3.img im him
+    refine ⟨io.cstep, io.tn, fun c hc => ?_⟩
+    unfold diskTotal
+    rw [t1 c hc, t2 im him c]; exact hcons c
+  · rw [disk_rows a3]; exact w4
+  · rw [disk_rows a3]; exact w1
+  · intro im him pn hpn hact
+    rw [disk_rows a3] at hpn
+    exact a2.rinv.rowsFrac pn hpn ((a3.img im him).act.mem_iff.mp hact)
+
+/-- **One worker: data file + live weights of the restart file = the restart file's step counter**, in every
+    ensemble column. -/
+theorem files_conservation_one_worker (y0 : Sys) (evs : List Ev) (z : DSys) (h0 : DiskStart y0)
+    (hh : HistOk y0 evs) (hw : y0.s.workers = 1) (hc0 : y0.s.cstep = 0)
+    (hr : dRun (freshSys y0) evs = .ok z) (im : Image) (him : z.d.img = some im) (c : Nat)
+    (hc : c < z.y.s.n - 1) : diskTotal z.d.lines im c = (im.cstep : Rat) := by
+  obtain ⟨a1, _, _, a4, _⟩ := files_conservation_reachable y0 evs z h0 hh hr
+  obtain ⟨b1, _, b3⟩ := a4 im him
+  have hm := matchableAlong_of_histOk evs y0 h0.i5.inv5 hh
+  obtain ⟨_, _, _, hn, _, hcs⟩ := run_total evs h0.ri.fi.hinv h0.ri.fi.jinv a1 hm
+  rw [b3 c hc, b1, hcs hw c (by rw [← hn]; exact hc), hc0]
+  simp
+
+theorem exDiskStart1 : DiskStart exSys1 :=
+  fresh_start_is_diskStart 4 1 10 0 3 0 [[-1]] [[0], [0], [0]] false exPaths exS1 (by decide) (by decide)
+    (by decide) (by decide) (by decide) exPaths_fam (by decide +kernel)
+
+theorem exDiskStart : DiskStart exSys :=
+  fresh_start_is_diskStart 4 2 10 0 3 0 [[-1, -1]] [[0], [0], [0]] false exPaths exS0 (by decide) (by decide)
+    (by decide) (by decide) (by decide) exPaths_fam (by decide +kernel)
+
+/-- one worker: `[1+]` accepted (new weights `[1,2,0]`), `[0-]` rejected, `[0+]` accepted (new weights `[1,1,0]`) -/
+def exEvsD : List Ev := exEvs1.take 4 ++ [.step 0 .acc [[1, 1, 0]] { t := 2, e := 2 }]
+
+def exZ : DSys := match dRun (freshSys exSys1) exEvsD with | .ok z => z | .error _ => freshSys exSys1
+
+theorem ex_histOkD : HistOk exSys1 exEvsD := histOk_of_B _ _ (by decide +kernel)
+
+/-- three completed steps: the data file holds the header, the row of path 1 (replaced before it collected
+    anything: all `----`) and the row of path 3; the restart file is the one of step 3 -/
+example : DiskStart exSys1 ∧ HistOk exSys1 exEvsD ∧ dRun (freshSys exSys1) exEvsD = .ok exZ ∧
+    exZ.d.lines.drop 3 =
+      [{ hash := false, term := true, key := some 1, frac := [.dash, .dash, .dash], wts := [.dash, .dash, .dash] },
+       { hash := false, term := true, key := some 3, frac := [.dash, .num (2/3), .num (4/3)],
+         wts := [.dash, .num 1, .num 2] }] ∧
+    exZ.d.img.map (·.active) = some [some 0, some 4, some 2] ∧ exZ.d.img.map (·.cstep) = some 3 ∧
+    exZ.d.img.map (·.trajNum) = some 5 ∧
+    exZ.d.img.map (·.frac) = some [(0, [3, 0, 0, 0]), (2, [0, 11/6, 7/6, 0]), (4, [0, 1/2, 1/2, 0])] ∧
+    exZ.cnt = [3, 3, 3, 0] ∧
+    (List.range 3).map (fun c => lineTotal exZ.d.lines c) = [0, 2/3, 4/3] ∧
+    (exZ.d.img.map (fun im => (List.range 3).map (fun c => diskTotal exZ.d.lines im c))) = some ([3, 3, 3] : List Rat) :=
+  ⟨exDiskStart1, ex_histOkD, by decide +kernel, by decide +kernel, by decide +kernel, by decide +kernel,
+   by decide +kernel, by decide +kernel, by decide +kernel, by decide +kernel, by decide +kernel⟩
+
+/-- two workers: after the history `exEvs` (zero swap accepted while `[1+]` busy, then `[1+]` rejected while `[0-]`
+    busy) the counts are `[1, 2, 1]` -/
+def exZ2 : DSys := match dRun (freshSys exSys) exEvs with | .ok z => z | .error _ => freshSys exSys
+
+example : DiskStart exSys ∧ HistOk exSys exEvs ∧ dRun (freshSys exSys) exEvs = .ok exZ2 ∧
+    exZ2.cnt = [1, 2, 1, 0] ∧
+    exZ2.d.img.map (·.cstep) = some 2 ∧
+    (exZ2.d.img.map (fun im => (List.range 3).map (fun c => diskTotal exZ2.d.lines im c)))
+      = some ([1, 2, 1] : List Rat) :=
+  ⟨exDiskStart, ex_histOk, by decide +kernel, by decide +kernel, by decide +kernel, by decide +kernel⟩
+
+/-! ## 12. A stop anywhere inside `treat_output`, then a restart: the law on the files, in full
+
+This replaces `crash_restart_conservation_partial` (§8, kept): the restart file is a separate object of the
+model (`Disk.img`, written by the previous `treat_output`, untouched by `prep_md_items`), the table is shown to
+hold exactly the live paths in every reachable state (C06's `Tidy`), and the statement is about what the two
+files show.  `Stop`: `renamed = false` — the stop falls before the `os.replace` of `restart.toml`, `j` whole new
+rows have reached the data file, possibly followed by a torn piece of the next one (`torn`); `renamed = true` —
+after it.  `restartClean` = the restart's `clean_data_file` on that disk, `restore` = `__init__` + `load_paths`. -/
+
+/-- **Crash + restart, every reachable state, every stop.**  `z` reachable on the disk, one more completed step
+    to `z'`, stopped at `p` (before the replace a restart file must exist, i.e. at least one step was completed
+    before).  The restart finds a restart file and, after `clean_data_file`:
+    1. the restart file's step counter is the number of steps it accounts for (`cstep` resp. `cstep + 1`);
+    2. in every ensemble column, the fractions the data file shows + the live weights of the restart file
+       = the idle recordings of the history, plus this step's if the restart file is the new one — nothing lost,
+       nothing counted twice, whichever effect the stop fell between;
+    3. every path has at most one row and no row belongs to a path active in the restart file;
+    4. `load_paths` on that restart file rebuilds a table holding exactly the active paths whose column totals
+       are those live weights, with the restart file's path counter. -/
+theorem crash_restart_conservation (y0 : Sys) (evs : List Ev) (z z' : DSys) (h0 : DiskStart y0)
+    (hh : HistOk y0 evs) (hr : dRun (freshSys y0) evs = .ok z)
+    (k : Nat) (status : Status) (newW : List (List Rat)) (o : PickOutcome)
+    (hev : EvOk z.y (.step k status newW o)) (hs : dStep z (.step k status newW o) = .ok z') (p : Stop)
+    (himg : p.renamed = false → ∃ im, z.d.img = some im) :
+    ∃ lines im, (∃ ls' s2, restartClean (stopDisk z.d ls' (persistD s2) p) = some (lines, im) ∧
+        z'.d = { lines := z.d.lines ++ ls', img := some (persistD s2) }) ∧
+      im.cstep = (if p.renamed then z.y.s.cstep + 1 else z.y.s.cstep) ∧
+      (∀ c, c < z.y.s.n - 1 → diskTotal lines im c
+          = (idleSteps y0 evs c : Rat) + (if p.renamed then (idleAt z.y (.step k status newW o) c : Rat) else 0)) ∧
+      ((dataRows lines).map (·.1)).Nodup ∧ (∀ pn ∈ (dataRows lines).map (·.1), pn ∉ activeKeys im) ∧
+      (∀ (n workers tsteps : Nat) (occ : List (List Int)) (ensEng : List (List Nat)) (weightOf : Nat → List Rat)
+        (sR : St), restore im n workers tsteps occ ensEng weightOf = .ok sR →
+          (sR.frac.map Prod.fst).Perm (activeKeys im) ∧ (∀ c, colTotal sR.frac c = liveTotal im c) ∧
+          sR.trajNum = im.trajNum) := by
+  obtain ⟨a1, a2, a3, _⟩ := dRun_spec evs (z := freshSys y0) h0.reach4 (freshSys_inv h0.ri) hh hr
+  have a1' : run y0 evs = .ok z.y := a1
+  obtain ⟨lines, im, hx, hcs, htot, hnd, hna⟩ := stop_restart_totals a2 a3 hev hs p himg
+  have hcons := conservation_reachable y0 z.y evs h0.ri.fi h0.i5 hh a1'
+  have hm := matchableAlong_of_histOk evs y0 h0.i5.inv5 hh
+  obtain ⟨_, hj, _⟩ := run_total evs h0.ri.fi.hinv h0.ri.fi.jinv a1' hm
+  obtain ⟨_, _, hstep, _⟩ := sysStep_total _ a2.hinv hj (dStep_sys hs) (matchableAt_of_inv5 a2.inv5 hev)
+  refine ⟨lines, im, hx, hcs, ?_, hnd, hna, ?_⟩
+  · intro c hc
+    rw [htot c hc]
+    cases p.renamed with
+    | true =>
+      simp only [if_true]
+      rw [hstep c]
+      unfold total
+      rw [hcons c]
+    | false =>
+      simp only [Bool.false_eq_true, if_false, add_zero]
+      unfold total
+      exact hcons c
+  · intro n workers tsteps occ ensEng weightOf sR hres
+    obtain ⟨r1, _, r3, _, _, r6⟩ := restore_image hres
+    exact ⟨r1, r3, r6⟩
+
+/-- **One worker: after crash + restart, data file + live weights of the restart file = the restart file's step
+    counter** in every ensemble column. -/
+theorem crash_restart_one_worker (y0 : Sys) (evs : List Ev) (z z' : DSys) (h0 : DiskStart y0)
+    (hh : HistOk y0 evs) (hw : y0.s.workers = 1) (hc0 : y0.s.cstep = 0)
+    (hr : dRun (freshSys y0) evs = .ok z)
+    (k : Nat) (status : Status) (newW : List (List Rat)) (o : PickOutcome)
+    (hev : EvOk z.y (.step k status newW o)) (hs : dStep z (.step k status newW o) = .ok z') (p : Stop)
+    (himg : p.renamed = false → ∃ im, z.d.img = some im) :
+    ∃ lines im, (∃ ls' s2, restartClean (stopDisk z.d ls' (persistD s2) p) = some (lines, im) ∧
+        z'.d = { lines := z.d.lines ++ ls', img := some (persistD s2) }) ∧
+      ∀ c, c < z.y.s.n - 1 → diskTotal lines im c = (im.cstep : Rat) := by
+  obtain ⟨lines, im, hx, hcs, htot, _⟩ :=
+    crash_restart_conservation y0 evs z z' h0 hh hr k status newW o hev hs p himg
+  obtain ⟨a1, a2, _, _⟩ := dRun_spec evs (z := freshSys y0) h0.reach4 (freshSys_inv h0.ri) hh hr
+  have a1' : run y0 evs = .ok z.y := a1
+  have hm := matchableAlong_of_histOk evs y0 h0.i5.inv5 hh
+  obtain ⟨_, hj, _, hn, hwk, hcstep⟩ := run_total evs h0.ri.fi.hinv h0.ri.fi.jinv a1' hm
+  obtain ⟨_, _, _, _, _, hone⟩ := sysStep_total _ a2.hinv hj (dStep_sys hs) (matchableAt_of_inv5 a2.inv5 hev)
+  obtain ⟨job, s2, sf⟩ := step_facts a2 (dStep_sys hs)
+  refine ⟨lines, im, hx, ?_⟩
+  intro c hc
+  have hc' : c < y0.s.n - 1 := by rw [← hn]; exact hc
+  rw [htot c hc, hcs]
+  have e1 := hcstep hw c hc'
+  have e2 := hone (hwk.trans hw) c hc
+  have e3 : z'.y.s.cstep = z.y.s.cstep + 1 := by rw [sf.keep.cstep, sf.cstep]
+  cases p.renamed with
+  | true =>
+    simp only [if_true]
+    have : idleAt z.y (.step k status newW o) c = 1 := by omega
+    rw [this, e1, hc0]
+    push_cast
+    ring
+  | false =>
+    simp only [Bool.false_eq_true, if_false, add_zero]
+    rw [e1, hc0]
+    simp
+
+/-- the next completed step of the one-worker history `exEvsD`: `[1+]` (path 2) accepted, new weights `[1,1,0]` -/
+def exStepD : Ev := .step 0 .acc [[1, 1, 0]] { t := 1, e := 1 }
+
+def exZn : DSys := match dStep exZ exStepD with | .ok z => z | .error _ => exZ
+
+/-- what the restart finds for a stop of that step after its row (path 2) was appended, with a torn piece of
+    nothing more, before the replace: the old restart file (step 3), the new row dropped, totals `[3,3,3]`;
+    and after the replace: the new restart file (step 4), three rows, totals `[4,4,4]` -/
+example : DiskStart exSys1 ∧ HistOk exSys1 exEvsD ∧ dRun (freshSys exSys1) exEvsD = .ok exZ ∧
+    EvOk exZ.y exStepD ∧ dStep exZ exStepD = .ok exZn ∧
+    (dataRows exZn.d.lines).map (·.1) = [1, 3, 2] ∧
+    ((restartClean (stopDisk exZ.d (exZn.d.lines.drop 5) ((exZn.d.img).getD (persistD exZ.y.s))
+        { j := 1, torn := some none, renamed := false })).map
+      (fun li => ((dataRows li.1).map (·.1), li.2.cstep, (List.range 3).map (fun c => diskTotal li.1 li.2 c))))
+      = some ([1, 3], 3, ([3, 3, 3] : List Rat)) ∧
+    ((restartClean (stopDisk exZ.d (exZn.d.lines.drop 5) ((exZn.d.img).getD (persistD exZ.y.s))
+        { j := 1, renamed := true })).map
+      (fun li => ((dataRows li.1).map (·.1), li.2.cstep, (List.range 3).map (fun c => diskTotal li.1 li.2 c))))
+      = some ([1, 3, 2], 4, ([4, 4, 4] : List Rat)) :=
+  ⟨exDiskStart1, ex_histOkD, by decide +kernel, evOk_of_B (by decide +kernel), by decide +kernel,
+   by decide +kernel, by decide +kernel, by decide +kernel⟩
+
+/-! ## 13. Chains of restarts, no matchability hypothesis
+
+`Reach4 y` bundles the invariants of the packages the weight accounting rests on: C03's scheduler invariant with
+this package's table invariant (`HInv`), "written once" (`RInv`), C05's family invariant with the positive
+permanent of the idle block (`Inv5`), C06's tidy tables (`TidyY`: both tables keyed exactly by the live paths, ghost
+slot empty) and the support invariant (`SupInv`).  `JInv`: no more jobs in flight than workers.
+Every fresh start satisfies them (`fresh_start_reach4`), every event of a history whose outcomes are in the
+weight family keeps them (`conservation_from_reachable`), and the state rebuilt from the restart image of a
+quiescent state satisfies them again (`restart_is_start_state_reachable`) — so the conservation law holds over
+chains of restarts of any length, without hypotheses on the states in between. -/
+
+theorem fresh_start_reach4 (y0 : Sys) (h0 : DiskStart y0) : Reach4 y0 ∧ JInv y0 :=
+  ⟨h0.reach4, h0.ri.fi.jinv⟩
+
+/-- **Conservation from any state satisfying the invariants**: over a history with outcomes in the weight
+    family, rows + table grow, per column, by the number of idle recordings; the invariants hold at the end. -/
+theorem conservation_from_reachable (y y' : Sys) (evs : List Ev) (hr : Reach4 y) (hj : JInv y)
+    (hh : HistOk y evs) (hrun : run y evs = .ok y') :
+    Reach4 y' ∧ JInv y' ∧ y'.s.n = y.s.n ∧
+    ∀ c, rowsTotal y'.s.rows c + colTotal y'.s.frac c
+      = rowsTotal y.s.rows c + colTotal y.s.frac c + (idleSteps y evs c : Rat) := by
+  obtain ⟨a1, a2, a3, a4⟩ := run_from_reach4 evs hr hj hh hrun
+  exact ⟨a1, a2, a4, fun c => a3 c⟩
+
+/-- **A quiescent restart is a start state again, for every invariant.**  `y1` any state satisfying the
+    invariants with nothing recorded as in flight; its image is restored (any worker count, step target, engine
+    table; the stored paths have the weights on record).  The restored state satisfies the invariants again, its
+    table has the column totals of `y1`'s, its model row list is empty (the data file on disk goes on). -/
+theorem restart_is_start_state_reachable (y1 : Sys) (hr : Reach4 y1) (hlk : y1.s.locked = [])
+    (workers tsteps : Nat) (occ : List (List Int)) (ensEng : List (List Nat)) (s2 : St)
+    (hrs : restore (persist y1.s) y1.s.n workers tsteps occ ensEng
+      (fun pn => (y1.s.wts.lookup pn).getD []) = .ok s2) :
+    Reach4 ⟨s2, []⟩ ∧ JInv ⟨s2, []⟩ ∧ (∀ c, colTotal s2.frac c = colTotal y1.s.frac c) ∧ s2.rows = [] ∧
+      s2.n = y1.s.n := by
+  obtain ⟨a1, a2, _, a4, a5, a6⟩ := restore_reach4 hr hlk hrs
+  exact ⟨a1, a2, a4, a5, a6⟩
+
+/-- **Conservation across a restart, no matchability hypothesis** (`restart_conservation` with C05 plugged in and
+    the "table = live paths" hypothesis discharged): fresh start, history `evs1` to a quiescent state, restart,
+    history `evs2`.  Rows of the first run + rows of the second run + live fractions = idle recordings of both. -/
+theorem restart_conservation_reachable (y0 y1 y3 : Sys) (evs1 evs2 : List Ev) (h0 : DiskStart y0)
+    (hh1 : HistOk y0 evs1) (hr1 : run y0 evs1 = .ok y1) (hlk : y1.s.locked = [])
+    (workers tsteps : Nat) (occ : List (List Int)) (ensEng : List (List Nat)) (s2 : St)
+    (hrs : restore (persist y1.s) y1.s.n workers tsteps occ ensEng
+      (fun pn => (y1.s.wts.lookup pn).getD []) = .ok s2)
+    (hh2 : HistOk ⟨s2, []⟩ evs2) (hr2 : run ⟨s2, []⟩ evs2 = .ok y3) (c : Nat) :
+    rowsTotal y1.s.rows c + (rowsTotal y3.s.rows c + colTotal y3.s.frac c)
+      = (idleSteps y0 evs1 c : Rat) + (idleSteps ⟨s2, []⟩ evs2 c : Rat) := by
+  obtain ⟨b1, b2, _, b4⟩ := conservation_from_reachable y0 y1 evs1 h0.reach4 h0.ri.fi.jinv hh1 hr1
+  obtain ⟨c1, c2, c3, c4, _⟩ := restart_is_start_state_reachable y1 b1 hlk workers tsteps occ ensEng s2 hrs
+  obtain ⟨_, _, _, d4⟩ := conservation_from_reachable ⟨s2, []⟩ y3 evs2 c1 c2 hh2 hr2
+  have e1 := b4 c
+  have e2 := d4 c
+  have z0 := h0.ri.fi.total_zero c
+  unfold total at z0
+  simp only [c4, rowsTotal_nil, zero_add, c3 c] at e2
+  rw [e2]
+  linarith
+
+/-! ### a one-worker run to its step target, restart with a larger target, a second run; a second restart -/
+
+theorem exDiskStartQ : DiskStart exSysQ :=
+  fresh_start_is_diskStart 4 1 3 0 3 0 [[-1]] [[0], [0], [0]] false exPaths exSQ (by decide) (by decide)
+    (by decide) (by decide) (by decide) exPaths_fam (by decide +kernel)
+
+def exEndQD : Sys := match run exSysQ exEvsD with | .ok y => y | .error _ => exSysQ
+
+def exS2D : St :=
+  match restore (persist exEndQD.s) 4 1 6 [[-1]] [[0], [0], [0]] (fun pn => (exEndQD.s.wts.lookup pn).getD []) with
+  | .ok s => s
+  | .error _ => exBlankQ
+
+def exEnd3D : Sys := match run ⟨exS2D, []⟩ exEvs2 with | .ok y => y | .error _ => exSysQ
+
+example : DiskStart exSysQ ∧ HistOk exSysQ exEvsD ∧ run exSysQ exEvsD = .ok exEndQD ∧ exEndQD.s.locked = [] ∧
+    restore (persist exEndQD.s) exEndQD.s.n 1 6 [[-1]] [[0], [0], [0]]
+      (fun pn => (exEndQD.s.wts.lookup pn).getD []) = .ok exS2D ∧
+    HistOk ⟨exS2D, []⟩ exEvs2 ∧ run ⟨exS2D, []⟩ exEvs2 = .ok exEnd3D ∧
+    (List.range 4).map (idleSteps exSysQ exEvsD) = [3, 3, 3, 0] ∧
+    (List.range 4).map (idleSteps ⟨exS2D, []⟩ exEvs2) = [2, 2, 2, 0] ∧
+    (List.range 3).map (fun c => rowsTotal exEndQD.s.rows c + (rowsTotal exEnd3D.s.rows c + colTotal exEnd3D.s.frac c))
+      = [5, 5, 5] :=
+  ⟨exDiskStartQ, histOk_of_B _ _ (by decide +kernel), by decide +kernel, by decide +kernel, by decide +kernel,
+   histOk_of_B _ _ (by decide +kernel), by decide +kernel, by decide +kernel, by decide +kernel, by decide +kernel⟩
+
+/-! ## 14. Histories with stops and restarts, to any depth: the law on the two files
+
+`Reachable one z` (Lemmas/RepexC04Resume.lean): `z` is a disk state (sampler + data file + restart file + counts)
+obtained from a fresh start on a fresh disk by any sequence of
+* scheduler events with outcomes in the weight family (`dStep`: any interleaving, any number of workers), and
+* restarts: the next completed step is stopped anywhere inside its two weight-relevant disk effects (any number
+  of whole new rows, a torn piece, before or after the `os.replace`), the restart file found records no job in
+  flight, and `restartSys` = `clean_data_file` + `REPEX_state.__init__` + `load_paths` rebuilds the sampler (any worker
+  count, step target, engine table); the counts go on from the recordings the restart file accounts for.
+`one = true`: one worker throughout, step counter 0 at the fresh start. -/
+
+/-- **The law on the files, for every reachable disk state.**
+    1. in every ensemble column, the fractions the data file SHOWS + the fraction table = the count of completed
+       steps at whose recording the column was idle;
+    2. once a restart file exists: its step counter is the sampler's and the data file + the live weights of the
+       restart file = that count;
+    3. every path has at most one row in the data file, and no row belongs to a path active in the restart file;
+    4. with one worker the count of every ensemble column is the step counter. -/
+theorem files_law_reachable (one : Bool) (z : DSys) (hz : Reachable one z) :
+    (∀ c, c < z.y.s.n - 1 → lineTotal z.d.lines c + colTotal z.y.s.frac c = (z.cnt.getD c 0 : Rat)) ∧
+    (∀ im, z.d.img = some im → im.cstep = z.y.s.cstep ∧
+        ∀ c, c < z.y.s.n - 1 → diskTotal z.d.lines im c = (z.cnt.getD c 0 : Rat)) ∧
+    (lineKeys z.d.lines).Nodup ∧
+    (∀ im, z.d.img = some im → ∀ pn ∈ lineKeys z.d.lines, pn ∉ activeKeys im) ∧
+    (one = true → z.y.s.workers = 1 ∧ ∀ c, c < z.y.s.n - 1 → z.cnt.getD c 0 = z.y.s.cstep) := by
+  obtain ⟨hg, h1⟩ := reachable_good hz
+  refine ⟨hg.d.law, ?_, ?_, ?_, h1⟩
+  · intro im him
+    obtain ⟨_, _, f3⟩ := good_disk_facts hg im him
+    exact ⟨(hg.d.img im him).cstep, f3⟩
+  · obtain ⟨pre, ls, hl1, hl2, _, hnd⟩ := hg.d.lines
+    rw [hl2, lineKeys_append]
+    have : lineKeys ls = z.y.s.rows.map (·.1) := (fmtRows_rows _ _ hl1).1
+    rw [this]; exact hnd
+  · intro im him pn hpn hact
+    obtain ⟨f1, _, _⟩ := good_disk_facts hg im him
+    unfold lineKeys dataRows at hpn
+    simp only [List.mem_map, List.mem_filterMap] at hpn
+    obtain ⟨x, ⟨l, hl, hle⟩, rfl⟩ := hpn
+    split at hle
+    · rename_i hcond
+      cases hk : l.key with
+      | none => rw [hk] at hle; simp at hle
+      | some q =>
+        rw [hk] at hle
+        simp only [Option.map_some, Option.some.injEq] at hle
+        subst hle
+        rcases f1 l hl with h' | ⟨_, h'⟩
+        · simp [h'] at hcond
+        · exact (h' q hk).2 hact
+    · exact absurd hle (by simp)
+
+/-- **One worker, any number of stops and restarts: data file + live weights of the restart file = the restart
+    file's step counter**, in every ensemble column. -/
+theorem files_law_one_worker (z : DSys) (hz : Reachable true z) (im : Image) (him : z.d.img = some im)
+    (c : Nat) (hc : c < z.y.s.n - 1) : diskTotal z.d.lines im c = (im.cstep : Rat) := by
+  obtain ⟨_, a2, _, _, a5⟩ := files_law_reachable true z hz
+  obtain ⟨b1, b2⟩ := a2 im him
+  rw [b2 c hc, (a5 rfl).2 c hc, b1]
+
+/-! ### three steps, a stop inside the fourth after its row was appended (torn piece following, old restart file),
+restart with a larger step target, two more events -/
+
+theorem exReachZ : Reachable true exZ :=
+  reachable_of_dRun exEvsD (Reachable.fresh exDiskStart1 (fun _ => ⟨by decide +kernel, by decide +kernel⟩))
+    ex_histOkD (by decide +kernel)
+
+def exMidD : St := match treatPart exZ.y 0 .acc [[1, 1, 0]] with | .ok (_, s2) => s2 | .error _ => exZ.y.s
+
+def exStopD : Stop := { j := 1, torn := some none, renamed := false }
+
+def exZr : DSys :=
+  match restartSys (stopDisk exZ.d (exZn.d.lines.drop 5) (persistD exMidD) exStopD) exZ.cnt 4 1 8 [[-1]] [[0], [0], [0]]
+      (fun pn => (exZ.y.s.wts.lookup pn).getD []) with
+  | .ok z => z
+  | .error _ => exZ
+
+theorem exReachZr : Reachable true exZr :=
+  Reachable.restart (z' := exZn) (k := 0) (status := .acc) (newW := [[1, 1, 0]]) (o := { t := 1, e := 1 }) (p := exStopD) (s2 := exMidD) (ls' := exZn.d.lines.drop 5)
+    (lines := exZ.d.lines) (im := (exZ.d.img).getD (persistD exZ.y.s)) (workers := 1) (tsteps := 8)
+    (occ := [[-1]]) (ensEng := [[0], [0], [0]])
+    exReachZ (evOk_of_B (by decide +kernel)) (by decide +kernel) (by decide +kernel) (by decide +kernel)
+    (by decide +kernel) (fun _ => rfl) (by decide +kernel)
+
+def exEvsR : List Ev := [.start { t := 1, e := 1 }, .initDone, .step 0 .acc [[1, 1, 0]] { t := 0, e := 0 }]
+
+def exZr2 : DSys := match dRun exZr exEvsR with | .ok z => z | .error _ => exZr
+
+/-- after the restart the run goes on from step 3 (the restart file's): the row of path 2 that the stopped step
+    had appended is gone (path 2 is live again); the restarted run makes its own fourth step ([0+], path 4
+    replaced); data file + live weights are the step counter again -/
+example : Reachable true exZr ∧ exZr.y.s.cstep = 3 ∧ exZr.cnt = [3, 3, 3, 0] ∧ lineKeys exZr.d.lines = [1, 3] ∧
+    HistOk exZr.y exEvsR ∧ dRun exZr exEvsR = .ok exZr2 ∧ exZr2.y.s.cstep = 4 ∧ exZr2.cnt = [4, 4, 4, 0] ∧
+    lineKeys exZr2.d.lines = [1, 3, 4] ∧
+    (exZr2.d.img.map (fun im => (List.range 3).map (fun c => diskTotal exZr2.d.lines im c)))
+      = some ([4, 4, 4] : List Rat) :=
+  ⟨exReachZr, by decide +kernel, by decide +kernel, by decide +kernel, histOk_of_B _ _ (by decide +kernel),
+   by decide +kernel, by decide +kernel, by decide +kernel, by decide +kernel, by decide +kernel⟩
 
 end Infretis.C04
